@@ -102,7 +102,9 @@ func TestVerif_C17_e2e(t *testing.T) {
 			if r.Intn(4) != 0 {
 				rq = c17GenValues(r, 4, nil)
 			}
-			if r.Intn(4) == 0 {
+			// one class of known finding per case: in multipart requests client-level fields are
+			// not combined with ordered pairs
+			if r.Intn(4) == 0 && !(mp && len(pairs) > 0) {
 				cl = c17GenValues(r, 3, rq.keys)
 			}
 			if mp {
@@ -242,7 +244,7 @@ func TestVerif_C17_e2e(t *testing.T) {
 				if bd == "" {
 					bd = "zzzzzzzzzzzzzzzzzzzzzzzzzzzzzzzzzzzzzzzzzzzzzzzzzzzzzzzzzzzzzzzzzzzzzz" // random default boundary: 60 hex digits, cannot match
 				}
-				f := c17GenFile(r, req, dir, i*10+j, r.Intn(5) == 0, bd, false)
+				f := c17GenFile(r, req, dir, i*10+j, r.Intn(5) == 0, bd, class != "")
 				files = append(files, f)
 				differs := c17QuoteDiffers(f.param) || c17QuoteDiffers(f.name)
 				for _, e := range f.extras {
@@ -388,6 +390,7 @@ func TestVerif_C17_e2e(t *testing.T) {
 			if kind == "forbid" && !forbid && (pick == "formbody" || pick == "files") {
 				// GET with payload allowed and a form/multipart body: covered by the other kinds
 				s.Count("skipped")
+				c17Done(c)
 				continue
 			}
 			var noFiles []c17File
@@ -461,6 +464,7 @@ func TestVerif_C17_e2e(t *testing.T) {
 			human = fmt.Sprintf("%s %s allowGet=%v %s marshal=%v(%T) raw=%q reqCT=%q clientCT=%q -> %s", proto, method, allowGet, pick, marshalSet, marshalVal, c17Trunc(string(raw), 40), reqCT, clientCT, c17Trunc(impl, 200))
 		}
 		s.Case(line, impl, ok, class, nontriv, human)
+		c17Done(c)
 	}
 	s.Finish()
 }
